@@ -430,6 +430,12 @@ func ruleLockBalanced(id string) func(*Checker) {
 				if _, isP := last.(*ssa.Panic); isP {
 					kind = "panic"
 				}
+				// an unexported acquire-wrapper hands the lock to its caller on return (the callers are checked
+				// through it); its panics must still release
+				if kind == "return" && fn.Parent() == nil && (fn.Object() == nil || !fn.Object().Exported()) {
+					c.pass(id, p.FuncName(fn), fmt.Sprintf("exit %d (%s) with the lock released", i, kind), p.Pos(last.Pos()), "an unexported wrapper: what it returns holding is accounted for at its call sites")
+					continue
+				}
 				c.check(!bad, id, p.FuncName(fn), fmt.Sprintf("exit %d (%s) with the lock released", i, kind), p.Pos(last.Pos()), "Builder.mu is not held on any path to this exit", "Builder.mu can still be held at this "+kind+": the builder stays locked, and the next call on it (which ought to be refused with a panic, or served) blocks forever")
 			}
 		}
